@@ -50,6 +50,11 @@ class FMMetrics(Metrics):  # pylint: disable=too-many-instance-attributes
     def get_result(self) -> list[dict[str, Any]]:
         return self.result
 
+    def execute(self, model: VariabilityModel) -> Metrics:
+        # Metrics.execute only extends self.result: start each execution from an empty report
+        self.result = []
+        return super().execute(model)
+
     def calculate_metamodel_metrics(self, model: VariabilityModel) -> list[dict[str, Any]]:
         self.model = cast(FeatureModel, model)
 
